@@ -1,9 +1,10 @@
 """C09 - chunking / windowing / splitting / grouping helpers conserve elements and order."""
+import copy
 import itertools
 
 from hypothesis import strategies as st
 
-from vlib.core import Outcome, Sub, HarnessError
+from vlib.core import poison, Outcome, Sub, HarnessError
 
 from boltons import iterutils
 
@@ -167,6 +168,15 @@ def run_chunk(case):
     ri = _call(lambda: list(itertools.islice(iterutils.chunked_iter(src_of(), size, **kw), count)))
     if ri != ('ok', chunks):
         return out.fail('c09.chunked.iter-differs', '%s: chunked_iter gives %r, chunked %r' % (desc, ri, chunks))
+    # the caller owns the result: emptying / extending it (a worker draining its chunks) must not show in a later, equal call
+    exp2 = copy.deepcopy(exp)
+    for c in chunks:
+        poison(c)
+    poison(chunks)
+    del chunks[:len(chunks) // 2]
+    r2 = _call(iterutils.chunked, src_of(), size, count, **kw)
+    if r2 != ('ok', exp2):
+        return out.fail('c09.chunked.result-aliased', '%s: after the caller modified the returned list, the same call gives %r, expected %r' % (desc, r2, exp2))
     out.nontrivial = n > 0 and (n % size == 0 or size > n or (count is not None and count * size < n))
     if n and n % size == 0:
         out.label('len_multiple_of_size')
@@ -221,6 +231,16 @@ def run_window(case):
     ri = _call(lambda: list(iterutils.pairwise_iter(src_of(), **pkw)))
     if ri != ('ok', pexp):
         return out.fail('c09.pairwise.iter-differs', 'pairwise_iter(%r) gives %r' % (items, ri))
+    for f, a, k2, e in ((iterutils.windowed, (size,), kw, exp), (iterutils.pairwise, (), pkw, pexp)):
+        e2 = list(e)
+        r1 = _call(f, src_of(), *a, **k2)
+        if r1[0] == 'ok':
+            poison(r1[1])
+            del r1[1][:1]
+        r2 = _call(f, src_of(), *a, **k2)
+        if r2 != ('ok', e2):
+            return out.fail('c09.%s.result-aliased' % f.__name__, '%s(%r, ...): after the caller modified the returned list, the same call gives %r, expected %r' % (
+                f.__name__, items, r2, e2))
     out.nontrivial = size >= n or size == 1 or bool(kw)
     if size > n:
         out.label('size_gt_len')
@@ -299,6 +319,34 @@ def run_split(case):
     ri = _call(lambda: list(iterutils.split_iter(src_of(), sep_of(), maxsplit)))
     if ri != ('ok', exp):
         return out.fail('c09.split.iter-differs', '%s: split_iter gives %r' % (desc, ri))
+    exp_copy = copy.deepcopy(exp)
+    for g in r[1]:
+        poison(g)
+    poison(r[1])
+    r2 = _call(iterutils.split, src_of(), sep_of(), maxsplit)
+    if r2 != ('ok', exp_copy):
+        return out.fail('c09.split.result-aliased', '%s: after the caller modified the returned lists, the same call gives %r, expected %r' % (desc, r2, exp_copy))
+    if mode in ('set', 'list') and type(sep_arg) in (set, list) and not one_shot_sep:
+        # the caller's separator collection is changed IN PLACE between two calls (same object, new contents): the second call
+        # must split on what the collection holds now
+        sep_arg.remove('SEP2')
+        is_sep_b = [c == 0 for c in raw]
+        enc_b = ''.join(',' if s_ else chr(0x100 + i) for i, s_ in enumerate(is_sep_b))
+        parts_b = enc_b.split(',', -1 if maxsplit is None else maxsplit) if enc_b else ['']
+        exp_b = _decode_parts(enc_b, parts_b, items, False)
+        rb = _call(iterutils.split, src_of(), sep_arg, maxsplit)
+        if rb != ('ok', exp_b):
+            return out.fail('c09.split.separators-changed-in-place', 'split(%r, sep=<the same %s object, now %r>, maxsplit=%r) -> %r, expected %r' % (
+                items, type(sep_arg).__name__, sep_arg, maxsplit, rb, exp_b))
+        rb = _call(lambda: list(iterutils.split_iter(src_of(), sep_arg, maxsplit)))
+        if rb != ('ok', exp_b):
+            return out.fail('c09.split.separators-changed-in-place', 'split_iter(%r, sep=<the same %s object, now %r>, maxsplit=%r) -> %r, expected %r' % (
+                items, type(sep_arg).__name__, sep_arg, maxsplit, rb, exp_b))
+        if type(sep_arg) is list:
+            sep_arg.append('SEP2')
+        else:
+            sep_arg.add('SEP2')
+        out.label('separator_collection_changed_in_place')
     nsep = sum(is_sep)
     out.nontrivial = nsep > 0 and (is_sep[0] or is_sep[-1] or any(a and b for a, b in zip(is_sep, is_sep[1:]))
                                    or (maxsplit is not None and maxsplit < nsep))
